@@ -4,6 +4,6 @@ P=$1; shift
 cd /repo && git status --porcelain --untracked-files=no | grep -q . && { echo "/repo dirty"; exit 2; }
 git -C /repo apply "$P" || exit 2
 for id in "$@"; do
-  (cd /verif && ./check $id | grep -E "^VIOLATION|rule=|^C[0-9]+:" | head -12)
+  (cd /verif && VERIF_NO_EVIDENCE=1 ./check $id | grep -E "^VIOLATION|rule=|^C[0-9]+:" | head -12)
 done
 git -C /repo checkout -- .
